@@ -4,7 +4,7 @@ ENGINES = [
     {
         "name": "vloop",
         "path": "vf/engine/vloop.py vf/engine/explore.py vf/engine/netsim.py",
-        "serves_properties": ["C04", "C05"],
+        "serves_properties": ["C04", "C05", "C06", "C07"],
         "kind_free_text": "stateless model checker for asyncio code: virtual-time BaseEventLoop stepped by hand, "
         "deviation-bounded exhaustive DFS over environment choices (segment delivery, timers, EOF/RST, cancel), "
         "replay of choice prefixes on fresh objects",
@@ -37,6 +37,25 @@ CHECKS = [
         "returned reply echoes the caller's own identifier, and that all callers finish (no lost lock).",
         "note": "Trusted: CPython asyncio primitives and FIFO callback order as reproduced by vloop; in-memory tagging transport. "
         "Not covered: more than 3 callers + worker, more than the stated deviations; per-scenario execution caps are reported in the evidence.",
+    },    {
+        "id": "C06",
+        "engine": "vloop",
+        "level": "model_checking",
+        "technique": "stateless deviation-bounded exploration of the real DoIP transport on an in-memory TCP stream: exhaustive gateway frame scripts x release points x segmentations x schedules, judged by an ideal in-order demultiplexer using frame delivery times",
+        "text": "The real DoIPTransport.connect/write/read run against a scripted gateway: (i) all 256 activation types x protocol versions and all 256 routing activation response codes (usable iff success code, request bytes exact); (ii) every sequence of <= 3 gateway frames (<= 2 with the full 21-letter alphabet, 3 with a 9-letter core; thorough: wider) x release after activation / after the k-th write x 4 client programs followed by draining reads x segmentations (coalesced, frame-aligned, byte-by-byte, every single split) x every schedule with <= 1 (thorough 2) deviations. Checked per execution: write ok iff matching ACK (TargetUnreachable NACK tolerated) delivered within 2 s else ConnectionError by the deadline; reads return exactly the diagnostic messages for this address pair in stream order, nothing lost or fabricated; every alive check answered with the tester address within 0.5 s in every client phase; only expected frames on the wire.",
+        "note": "Trusted: CPython asyncio streams/primitives, FIFO callback order as reproduced by vloop, the independent frame encoder and "
+        "the ideal demultiplexer in vf/checks/demux.py. Not covered: scripts longer than the bound, more deviations than the bound, "
+        "two client tasks using one transport concurrently, caller timeouts on write.",
+    },
+    {
+        "id": "C07",
+        "engine": "vloop",
+        "level": "model_checking",
+        "technique": "stateless deviation-bounded exploration of the real HSFZ transport on an in-memory TCP stream: exhaustive gateway frame scripts x release points x segmentations x schedules, judged by an ideal in-order demultiplexer using frame delivery times",
+        "text": "The real HSFZTransport.connect/write/read run against a scripted gateway: every sequence of <= 3 gateway frames (<= 2 with the full 18-letter alphabet, 3 with an 8-letter core; thorough: wider) x release at connect / after the k-th write x 4 client programs followed by draining reads x segmentations (coalesced, frame-aligned, byte-by-byte, every single split) x ack timeouts 250/1000/2500 ms x every schedule with <= 1 (thorough 2) deviations. Checked per execution: write ok iff an ack with the tester's pair echoing the first five bytes is delivered within the ack timeout, else ConnectionError by the deadline and the connection is closed; reads return exactly the data frames ecu->tester in stream order; error control words make the next consumer raise a ConnectionError; alive checks are answered in the same instant with the tester address.",
+        "note": "Trusted: CPython asyncio streams/primitives, FIFO callback order as reproduced by vloop, the independent frame encoder and "
+        "the ideal demultiplexer in vf/checks/demux.py. Not covered: scripts longer than the bound, more deviations than the bound, "
+        "two client tasks using one transport concurrently, caller timeouts on write.",
     },
 ]
 
